@@ -60,6 +60,36 @@ class Built:
     pass
 
 
+def make_load(b, coef, unit, gen_id):
+    """a new load *function object* (a user replacing `gear.external_torque`); every call is logged with the
+    identity of the function that was called"""
+    coef = list(coef) + [0.0] * (5 - len(coef))
+
+    def external_torque(angular_position, angular_speed, time):
+        p, v, t = qsi(angular_position), qsi(angular_speed), qsi(time)
+        b.load_log.append((p, v, t, len(b.pt.time), gen_id))
+        val = coef[0] + coef[1] * p + coef[2] * v + coef[3] * t + coef[4] * v * abs(v)
+        return U.Torque(from_si('Torque', val, unit), unit)
+    return external_torque
+
+
+def loads_at(spec, tr):
+    """(coefficients, function identity) of the load function in force at every recorded instant"""
+    own = owner_at(spec, tr)
+    cur, gen_id, per_op = spec['load']['coef'], 0, {}
+    for i, op in enumerate(spec['ops']):
+        if op['op'] == 'load':
+            gen_id += 1
+            cur = op['coef']
+        per_op[i] = (cur, gen_id)
+    return [per_op[i] if i is not None else (spec['load']['coef'], 0) for i in own]
+
+
+def uniform_cfg(spec):
+    """one configuration (controller, load function) for the whole schedule: whole-history model runs need that"""
+    return uniform_rules(spec) and not any(op['op'] == 'load' for op in spec['ops'])
+
+
 def declare(objs, r):
     if r[0] == 'joint':
         add_fixed_joint(objs[r[1]], objs[r[2]])
@@ -157,16 +187,8 @@ def build(spec):
     b.pt = Powertrain(motor)
     b.E = list(b.pt.elements)
     b.load_log = []
-    ld = spec['load']
-    coef = ld['coef'] + [0.0] * (5 - len(ld['coef']))
-
-    def external_torque(angular_position, angular_speed, time):
-        p, v, t = qsi(angular_position), qsi(angular_speed), qsi(time)
-        b.load_log.append((p, v, t, len(b.pt.time)))
-        val = coef[0] + coef[1] * p + coef[2] * v + coef[3] * t + coef[4] * v * abs(v)
-        return U.Torque(from_si('Torque', val, ld['unit']), ld['unit'])
-
-    b.E[-1].external_torque = external_torque
+    b.load_gen = 0
+    b.E[-1].external_torque = make_load(b, spec['load']['coef'], spec['load']['unit'], 0)
     ini = spec['init']
     b.E[-1].angular_position = Q('AngularPosition', ini['pos'])
     b.E[-1].angular_speed = Q('AngularSpeed', ini['speed'])
@@ -342,6 +364,9 @@ def simulate(spec, b=None):
                 lock.attach(solver)
             elif op['op'] == 'pwm':
                 motor.pwm = op['v']
+            elif op['op'] == 'load':
+                b.load_gen += 1
+                E[-1].external_torque = make_load(b, op['coef'], spec['load']['unit'], b.load_gen)
             elif op['op'] == 'redeclare':
                 declare(b.objs, op['rel'])
             elif op['op'] == 'snap':
@@ -477,7 +502,7 @@ def code_factor(kind, unit):
     return _CF[(kind, unit)]
 
 
-def model_cfg(spec, tr, dt_unit=None, rules=_UNSET):
+def model_cfg(spec, tr, dt_unit=None, rules=_UNSET, coef=None):
     """`key=value` tokens describing the configuration to the driver. Ratios, efficiencies and the
     self-locking flag are read from the built objects (they are C10's / C20's subject, checked by
     their own harness); everything else comes from the spec."""
@@ -495,7 +520,7 @@ def model_cfg(spec, tr, dt_unit=None, rules=_UNSET):
     toks.append(f"w0={siR('AngularSpeed', m['w0'])} tmax={siR('Torque', m['tmax'])}")
     if m.get('i0') is not None and m.get('imax') is not None:
         toks.append(f"i0={siR('Current', m['i0'])} imax={siR('Current', m['imax'])}")
-    toks.append('load=' + ','.join(R(c) for c in spec['load']['coef']))
+    toks.append('load=' + ','.join(R(c) for c in (coef if coef is not None else spec['load']['coef'])))
     if rules is _UNSET:
         runs = [op for op in spec['ops'] if op['op'] == 'run']
         rules = rules_of_op(spec, runs[0]) if runs else spec.get('rules')
@@ -694,7 +719,11 @@ def lockstep_requests(spec, tr, max_steps=None):
             continue
         a, b = rec['n_before'], min(rec.get('n_after', rec['n_before']), n)
         dt = F(op['dt'][0]) * code_factor('TimeInterval', op['dt'][1])
-        base = ' '.join(model_cfg(spec, tr, rules=rules_of_op(spec, op)))
+        coef = spec['load']['coef']
+        for prev in spec['ops'][:oi]:
+            if prev['op'] == 'load':
+                coef = prev['coef']
+        base = ' '.join(model_cfg(spec, tr, rules=rules_of_op(spec, op), coef=coef))
         for j in range(a, b):
             if j == 0:
                 if init is None:
@@ -733,6 +762,13 @@ def compare_step(tr, j, answer, rel=1e-9):
             sc = max([sc] + [abs(e['driving torque'][j]) for e in tr['els']] + [abs(e['load torque'][j]) for e in tr['els']])
         if mk == 'acc':
             sc = max(sc, 1e-6)
+            # acceleration = (driving - load) / inertia: near equilibrium the difference cancels, and its relative
+            # rounding error is amplified by max(|driving|, |load|) / |net| on the last element
+            lastel = tr['els'][-1]
+            net = abs(lastel['torque'][j])
+            big = max(abs(lastel['driving torque'][j]), abs(lastel['load torque'][j]))
+            if net > 0 and big > net:
+                sc *= min(big / net, 1e6)
         for ei, e in enumerate(tr['els']):
             a, m = e[var][j], r[mk][ei]
             if not (abs(a - m) <= rel * sc):
